@@ -139,6 +139,8 @@ type Exec struct {
 	vsets         map[string]*byteSet
 	entangled     map[string]bool
 
+	pools map[poolKey][]Value // sync.Pool model
+
 	// schedule mode (vrt_Sched): deviation-bounded exploration of goroutine schedules
 	schedOn     bool
 	schedBudget int
